@@ -907,7 +907,10 @@ func init() {
 	reg(&family{name: "clamp3", dim: 3, group: "toolbox",
 		gen: func(g *G, depth int, lab string) *node {
 			return &node{Op: "clamp3", Kids: g.kids(3, depth, 1, 1, lab),
-				I: []int{rapid.IntRange(0, 3).Draw(g.t, lab+".api"), rapid.IntRange(0, 2).Draw(g.t, lab+".axis"), rapid.IntRange(0, 1).Draw(g.t, lab+".side")},
+				I: []int{rapid.IntRange(0, 3).Draw(g.t, lab+".api"), rapid.IntRange(0, 2).Draw(g.t, lab+".axis"), rapid.IntRange(0, 1).Draw(g.t, lab+".side"),
+					// exact limits: 0 none, 1 lower limit = the kid's own upper bound, 2 upper limit = its lower bound,
+					// 3 both limits equal (a slab of no thickness is still a closed range)
+					rapid.SampledFrom([]int{0, 0, 0, 1, 2, 3}).Draw(g.t, lab+".exact")},
 				F: []float64{gen.F(g.t, -0.3, 1.3, lab+".lo"), gen.F(g.t, -0.3, 1.3, lab+".hi")}}
 		},
 		build: func(b *built) {
@@ -916,6 +919,16 @@ func init() {
 			ax := b.n.I[1]
 			lo := mn[ax] + b.n.F[0]*(mx[ax]-mn[ax])
 			hi := mn[ax] + b.n.F[1]*(mx[ax]-mn[ax])
+			if len(b.n.I) > 3 {
+				switch b.n.I[3] {
+				case 1:
+					lo, hi = mx[ax], math.Max(hi, mx[ax])
+				case 2:
+					lo, hi = math.Min(lo, mn[ax]), mn[ax]
+				case 3:
+					hi = lo
+				}
+			}
 			switch b.n.I[0] {
 			case 0:
 				b.set3(toolbox3d.ClampAxis(k.s3, toolbox3d.Axis(ax), lo, hi))
@@ -937,6 +950,14 @@ func init() {
 				}
 			}
 			b.under = func(p kit.V3) bool { return p[ax] >= lo && p[ax] <= hi && k.contains(p) }
+			// the range is closed and the limits are the very numbers handed to the library: exact along the axis
+			// (a slab of no thickness has points, too), with the usual margin only inside the kid
+			b.sure = func(p kit.V3, m float64) int {
+				if p[ax] >= lo && p[ax] <= hi && sureInside(k, p, m) {
+					return 1
+				}
+				return 0
+			}
 			kidsWit(b)
 			for _, w := range k.wit {
 				for _, v := range []float64{lo, hi} {
